@@ -1833,7 +1833,19 @@ fn witness_case(kind: &str) -> RtCase {
 
 fn run_witness(n: u64, kind: &str, out: &mut Out) -> Result<(), String> {
     let c = witness_case(kind);
-    let mut run = start_rt(&c)?;
+    let mut run = match start_rt(&c) {
+        Ok(run) => run,
+        Err(e) if e.starts_with("compile:") => {
+            // the compiler now refuses the declaration: the finding is gone (refusing is a valid repair)
+            out.line(format!("case {n}"));
+            out.line("kind rt");
+            out.line(format!("tag finding-{kind}"));
+            out.line("tag compile-refused");
+            out.line("end");
+            return Ok(());
+        }
+        Err(e) => return Err(e),
+    };
     emit_rt_header(n, &c, &run, out);
     out.line("din 0 0 0 0:7,1:1");
     run.shared.lock().expect("shared").scripts[0] = Script {
